@@ -265,6 +265,28 @@ func checkC18(c *Ctx) {
 				switch {
 				case val == "("+elem+" + c:1)":
 					nInc++
+					// C18.11 the carry runs over every digit, the most significant one (index 0) included: the loop that
+					// holds the increment is left, when no digit stops it, only with its index below 0
+					if ph, isPhi := ia.Index.(*ssa.Phi); isPhi {
+						hdr := ph.Block()
+						covered := false
+						if _, isIf := hdr.Instrs[len(hdr.Instrs)-1].(*ssa.If); isIf && len(hdr.Succs) == 2 {
+							for _, su := range hdr.Succs {
+								if su.Dominates(in.Block()) {
+									continue
+								}
+								for _, f := range d.Flow.edgeFacts(hdr, su) {
+									if f.Op == "<" && f.L == d.Flow.K.Key(ph) && f.R == "c:0" {
+										covered = true
+									}
+								}
+							}
+						}
+						c.Check(covered, "C18.11", "NextScenario: the carry reaches the most significant digit", p.InstrPos(in),
+							"the digit loop ends, if no digit stops it, only when its index has gone below 0", "the digit loop can end before index 0 was advanced: the most significant digit never moves, so the same combinations repeat and the announced count is never reached")
+					} else {
+						c.Undecided("C18.11", "NextScenario: the carry reaches the most significant digit", p.InstrPos(in), "the digit index is not a loop variable")
+					}
 				case val == "c:0":
 					nReset++
 					facts := d.Facts
@@ -276,6 +298,32 @@ func checkC18(c *Ctx) {
 				default:
 					bad = append(bad, p.InstrPos(in)+": "+shortVal(elem)+" := "+shortVal(val))
 				}
+			}
+			// the end of the enumeration is recorded exactly when the most significant digit wraps
+			if df := p.Field("twins", "Generator", "done"); df != nil {
+				nDone := 0
+				var badDone []string
+				for _, d := range deepInstrs(fg, func(in ssa.Instruction) bool {
+					st, ok := in.(*ssa.Store)
+					if !ok || !isBoolConst(st.Val, true) {
+						return false
+					}
+					fa, ok := st.Addr.(*ssa.FieldAddr)
+					return ok && fieldName(fa.X.Type(), fa.Field) == kGen+"done"
+				}, 0) {
+					nDone++
+					atTop := false
+					for f := range d.Facts {
+						if (f.Op == "<=" || f.Op == "==") && (f.R == "c:0" && strings.Contains(f.L, "phi@") || f.L == "c:0" && f.Op == "==" && strings.Contains(f.R, "phi@")) {
+							atTop = true
+						}
+					}
+					if !atTop {
+						badDone = append(badDone, p.InstrPos(d.Instr))
+					}
+				}
+				c.Check(nDone > 0 && len(badDone) == 0, "C18.11", "NextScenario: the end is recorded when digit 0 wraps", p.FuncPos(gen),
+					"done := true only for digit index 0 (i <= 0), on the wrap of that digit", "the enumeration's end is never recorded, or recorded for another digit ("+join(badDone)+"): more or fewer scenarios are yielded than announced")
 			}
 			c.Check(nInc == 1 && nReset == 1 && len(bad) == 0, "C18.9", "NextScenario: a digit wraps exactly at len(leadersPartitions)", p.FuncPos(gen),
 				"indices[i] is advanced by one and reset to 0 exactly under len(leadersPartitions) <= indices[i]",
